@@ -477,6 +477,55 @@ def short_border_oracle(case):
     return None
 
 
+def gen_hostile_watch_case(seed, i, engine):
+    """watch-create requests of the WATCH shape (start revision >= 0) with hostile keys - empty, without the leading '/', raw
+    bytes, a lone NUL - and hostile range ends / revisions, interleaved with cancels of known and unknown watches; the node
+    must answer every one (created, then possibly cancelled), stay up, and keep serving a create + range afterwards."""
+    from ..gen import hx, rng_for
+    from . import c16
+    r = rng_for(seed, "c20hw/%d" % i)
+    lines = [c16.cfg_line(engine), c16.render_txn(c16.t_create(b"/r/a", b"va")), "rev"]
+    keys = [b"", b"registry/pods/x", b"r/a", b"\xff\xfe\x80", b"\x00", b"a", b"/", b"/r/", b"/r/a", b"//", b"\x57\xfb\x80\x8b"]
+    ends = [b"", b"", b"/r0", b"\x00", b"r0", b"\xff"]
+    revs = [0, 0, 1, c16.INIT, c16.INIT + 1, c16.INIT + 500, 2 ** 62]
+    n = 0
+    for _ in range(r.randint(6, 12)):
+        n += 1
+        lines.append("watch h%d %s %s %d nowait=1" % (n, hx(r.choice(keys)), hx(r.choice(ends)), r.choice(revs)))
+        if r.random() < 0.4:
+            lines.append("wcancel h%d" % r.randint(1, n + 2))
+        if r.random() < 0.3:
+            lines += [c16.render_txn(c16.t_create(b"/r/k%d" % n, b"v")), "rev"]
+    lines += [c16.render_txn(c16.t_create(b"/r/zz-after", b"p")), "rev", c16.FULL]
+    return c16.EtcdCase("etcd", lines, {"engine": engine, "kind": "hostile-watch"}, compare=lambda op: False)
+
+
+def hostile_watch_oracle(case):
+    if case.impl and (case.impl[-1].startswith("CRASHED") or case.impl[-1] == "TIMEOUT"):
+        last = len(case.impl) - 1
+        req = case.lines[last] if last < len(case.lines) else "?"
+        return ("the node process died / hung at line %d (`%s`): %s" % (last + 1, req, case.impl[-1][:400]), "hostile-watch-crash")
+    for i, (line, out) in enumerate(zip(case.lines, case.impl)):
+        if " PANIC" in out:
+            return ("line %d: %s panicked: %s" % (i + 1, line, out[:200]), "hostile-watch-crash")
+    if len(case.impl) < len(case.lines):
+        return ("only %d of %d requests answered (the node died at `%s`)" % (len(case.impl), len(case.lines), case.lines[len(case.impl) - 1]),
+                "hostile-watch-crash")
+    txn, rng = case.impl[-3], case.impl[-1]
+    if not txn.startswith("txn ok=1"):
+        return ("after the hostile watch requests a create is not served: %s" % txn[:200], "hostile-watch-not-serving")
+    if "2f722f7a7a2d6166746572" not in rng:
+        return ("after the hostile watch requests the range read does not show the key just created: %s" % rng[:300], "hostile-watch-not-serving")
+    return None
+
+
+def check_hostile_watches(rep, tier, seed):
+    n = 9 if tier == "quick" else 300
+    cases = [gen_hostile_watch_case(seed, i, ["memkv", "badger", "tikv"][i % 3]) for i in range(n)]
+    core.run_cases(cases)
+    return core.judge(rep, "C20", cases, hostile_watch_oracle, tag="correspondence-hostile-watch")
+
+
 def check_short_borders(rep, tier, seed):
     n = 18 if tier == "quick" else 400
     engines = ["tikv", "tikv", "tikv", "memkv", "tikv", "badger"]
@@ -542,6 +591,8 @@ def check(rep, tier, seed):
         return True
     tbl = parse_table()
     if check_burst(rep, tier, tbl["globals"][0] if tbl["globals"] else []):
+        return True
+    if check_hostile_watches(rep, tier, seed):
         return True
     if check_short_borders(rep, tier, seed):
         return True
